@@ -42,7 +42,14 @@ def run(ctx):
     clause_d(ctx, fx)
     clause_e(ctx, fx)
     clause_f(ctx, fx)
+    clause_h(ctx, fx)
     clause_g(ctx, fx)
+
+
+def clause_h(ctx, fx):
+    """'…in both serialization formats': the JSON envelope the issuer / holder write can be read back (rule shared with C10.F4)"""
+    import c10
+    c10.f4(common.RelabelCtx(ctx, "C01.h"), fx, "C01.h")
 
 
 def clause_g(ctx, fx):
